@@ -187,7 +187,7 @@ theorem splitToSize_pieces (c : SizeConfig) (text : Str) (bs : List Boundary) :
     rw [dif_pos hsp]
     have := Pieces.piece (p := rem) .nil (.done .nil)
     simpa using this
-  | case4 rem bs h hmax sp hsp chunk rest hchunk ih =>
+  | case4 rem bs h hmax sp hsp chunk rest bs' hchunk ih =>
     rw [splitToSize, if_neg h, if_neg hmax]
     simp only [sp] at hsp
     rw [dif_neg hsp]
@@ -199,7 +199,7 @@ theorem splitToSize_pieces (c : SizeConfig) (text : Str) (bs : List Boundary) :
     have e2 : rem = rem.take sp ++ l ++ rest ++ r := by
       rw [List.append_assoc, List.append_assoc, ← List.append_assoc l, ← e, List.take_append_drop]
     exact this.cast e2
-  | case5 rem bs h hmax sp hsp chunk rest hchunk ih =>
+  | case5 rem bs h hmax sp hsp chunk rest bs' hchunk ih =>
     rw [splitToSize, if_neg h, if_neg hmax]
     simp only [sp] at hsp
     rw [dif_neg hsp]
